@@ -15,7 +15,7 @@ import (
 // signature check): at each of them any runnable thread may be resumed, and every choice is
 // explored. Each call must get the verdict it would get in isolation.
 
-func verifC09(concurrent, preconfigured bool) {
+func verifC09(concurrent, preconfigured, fromBlob bool) {
 	// a genuine endorsement (decodes, chains, verifies, provenance present) with one symbolic
 	// table row and a symbolic SVSM value; the two report measurements and the requested VMSA
 	// count are arbitrary
@@ -38,6 +38,15 @@ func verifC09(concurrent, preconfigured bool) {
 		opts.SNP.Measurement = verifNondetBytes("preconfigured", 48)
 		pre = append([]byte(nil), opts.SNP.Measurement...)
 	}
+	var blob []byte
+	if fromBlob {
+		// the endorsement arrives serialized with each report (certificate table entry) instead of
+		// pre-parsed in the options
+		w.outerBytes = verifNondetBytes("outer", 2)
+		w.outer = e
+		opts.Endorsement = nil
+		blob = w.outerBytes
+	}
 	validate := SNPValidateFunc(opts)
 	ma := verifNondetBytes("meas_a", 48)
 	mb := verifNondetBytes("meas_b", 48)
@@ -47,14 +56,14 @@ func verifC09(concurrent, preconfigured bool) {
 	doneA, doneB := false, false
 	if concurrent {
 		w.yield = verifYield
-		verifSpawn(func() { errA = validate(attA, nil); doneA = true })
-		verifSpawn(func() { errB = validate(attB, nil); doneB = true })
+		verifSpawn(func() { errA = validate(attA, blob); doneA = true })
+		verifSpawn(func() { errB = validate(attB, blob); doneB = true })
 		verifJoinAll()
 		w.yield = nil
 	} else {
-		errA = validate(attA, nil)
+		errA = validate(attA, blob)
 		doneA = true
-		errB = validate(attB, nil)
+		errB = validate(attB, blob)
 		doneB = true
 	}
 	verifAssert(doneA && doneB, "both validations completed")
@@ -85,7 +94,9 @@ func verifC09(concurrent, preconfigured bool) {
 
 func verifProvenanceMissing(w *verifWorld) bool { return false }
 
-func VerifC09Successive()    { verifC09(false, false) }
-func VerifC09Concurrent()    { verifC09(true, false) }
-func VerifC09SuccessivePre() { verifC09(false, true) }
-func VerifC09ConcurrentPre() { verifC09(true, true) }
+func VerifC09Successive()     { verifC09(false, false, false) }
+func VerifC09Concurrent()     { verifC09(true, false, false) }
+func VerifC09SuccessivePre()  { verifC09(false, true, false) }
+func VerifC09ConcurrentPre()  { verifC09(true, true, false) }
+func VerifC09SuccessiveBlob() { verifC09(false, false, true) }
+func VerifC09ConcurrentBlob() { verifC09(true, false, true) }
